@@ -36,7 +36,7 @@ Definition gin (g : goal) : Prop := Forall (tin P) (snd g).
 Inductive fgood : frame -> Prop :=
 | FG1 tr cnt gs : good P tr -> Forall gin gs -> fgood (FGoals tr cnt gs)
 | FG2 tr cnt args f rest : good P tr -> Forall (tin P) args -> Forall gin rest -> fgood (FFact tr cnt args f rest)
-| FG3 tr cnt nm args rest : good P tr -> Forall (tin P) args -> Forall gin rest -> fgood (FFun tr cnt nm args rest)
+| FG3 tr cnt fn args rest : good P tr -> Forall (tin P) args -> Forall gin rest -> fgood (FFun tr cnt fn args rest)
 | FG4 tr cnt args cl rest : good P tr -> Forall (tin P) args -> Forall gin rest -> fgood (FClause tr cnt args cl rest).
 
 Lemma gin_rn f l : (forall k, P (f k) = true) -> Forall gin (map (rn_goal f) l).
@@ -76,7 +76,7 @@ Proof.
   intros C. induction fuel as [|fuel IH]; intros fr names Hfr; [simpl; auto|].
   destruct fr as [|f r]; [simpl; auto|].
   pose proof (Forall_inv Hfr) as Hf. pose proof (Forall_inv_tail Hfr) as Hr.
-  destruct f as [tr cnt gs|tr cnt args f gs|tr cnt nm args gs|tr cnt args cl gs];
+  destruct f as [tr cnt gs|tr cnt args f gs|tr cnt fn args gs|tr cnt args cl gs];
     inversion Hf as [tr0 cnt0 gs0 Gt Gg|tr0 cnt0 a0 f0 r0 Gt Ga Gg|tr0 cnt0 n0 a0 r0 Gt Ga Gg|tr0 cnt0 a0 c0 r0 Gt Ga Gg]; subst.
   - destruct gs as [|[nm args] gs]; [simpl; auto|].
     cbn [search]. apply IH. apply Forall_app. split.
@@ -91,7 +91,7 @@ Proof.
     + rewrite St. apply IH; auto.
     + rewrite St. simpl; auto.
     + rewrite St. simpl; auto.
-  - cbn [search]. destruct (find_function d nm (length args)) as [ds|]; [|apply IH; auto].
+  - cbn [search]. destruct fn as [ds|]; [|apply IH; auto].
     destruct (clauses_of ds) as [cls|]; [|simpl; auto].
     apply IH. apply Forall_app. split; auto.
     apply Forall_forall. intros x Hx. apply in_map_iff in Hx as [y [<- _]]. constructor; auto.
